@@ -69,12 +69,16 @@ type bucketObjectIterator struct {
 	data     *bucketData
 	iter     skiplist.Iterator
 	cur      *bucketData
+	didSeek  bool
 	seenData bool
 	done     bool
 }
 
 func (b *bucketObjectIterator) Seek(key gofakes3.VersionID) bool {
 	if b.iter != nil && b.iter.Seek(key) {
+		// The skiplist iterator is now at the version sought; the next call
+		// to Next() must return it rather than step past it.
+		b.didSeek = true
 		return true
 	}
 
@@ -95,7 +99,8 @@ func (b *bucketObjectIterator) Next() bool {
 	}
 
 	if b.iter != nil {
-		iterAlive := b.iter.Next()
+		iterAlive := b.didSeek || b.iter.Next()
+		b.didSeek = false
 		if iterAlive {
 			b.cur = b.iter.Value().(*bucketData)
 			return true
